@@ -187,9 +187,9 @@ type session struct {
 	socket                         socket.Socket
 	closeNotifyCh                  chan struct{} // closeNotifyCh is the channel returned by CloseNotify.
 	writeLock                      sync.Mutex
-	graceCtxWaitGroup              sync.WaitGroup
+	graceCtxWaitGroup              graceWaitGroup
 	graceCtxMutex                  sync.Mutex
-	graceCallCmdWaitGroup          sync.WaitGroup
+	graceCallCmdWaitGroup          graceWaitGroup
 	sessionAge                     time.Duration
 	contextAge                     time.Duration
 	sessionAgeLock                 sync.RWMutex
@@ -303,6 +303,50 @@ func (s *session) Health() bool {
 		return true
 	}
 	return false
+}
+
+// graceWaitGroup counts the handler contexts or call commands that a closing
+// session has to wait for. It has the Add, Done and Wait methods of
+// sync.WaitGroup, but Add may be called concurrently with Wait: Push, AsyncCall
+// and the read loop are not ordered with Close or a disconnect, which
+// sync.WaitGroup does not allow when the counter is zero.
+// Wait returns once the counter is zero; what is added after that is not
+// waited for (it fails fast on the changed session status).
+type graceWaitGroup struct {
+	mu   sync.Mutex
+	n    int
+	zero chan struct{} // not nil while a Wait is blocked; closed when n drops to zero
+}
+
+// Add adds delta, which may be negative, to the counter.
+func (g *graceWaitGroup) Add(delta int) {
+	g.mu.Lock()
+	g.n += delta
+	if g.n <= 0 && g.zero != nil {
+		close(g.zero)
+		g.zero = nil
+	}
+	g.mu.Unlock()
+}
+
+// Done decrements the counter by one.
+func (g *graceWaitGroup) Done() {
+	g.Add(-1)
+}
+
+// Wait blocks until the counter is zero.
+func (g *graceWaitGroup) Wait() {
+	g.mu.Lock()
+	for g.n > 0 {
+		if g.zero == nil {
+			g.zero = make(chan struct{})
+		}
+		zero := g.zero
+		g.mu.Unlock()
+		<-zero
+		g.mu.Lock()
+	}
+	g.mu.Unlock()
 }
 
 func (s *session) graceCtxWait() {
